@@ -535,7 +535,7 @@ class Gen:
         if k == "comment":
             if not allow_text:
                 return M.Comment("inline", " note")
-            return M.Comment(r.choice(["hash", "block", "inline"]), r.choice([" note ", " {{ x }} ", "", "\n multi\n line\n"]))
+            return M.Comment(r.choice(["hash", "block", "inline"]), r.choice([" note ", " {{ x }} ", "", "\n multi\n line\n", " - item, (x)\n\n * two "]))
         if k in ("break", "continue"):
             inner = [M.Break() if k == "break" else M.Continue()]
             return M.If([(self.cond(env, loop, 1), inner)], None)
